@@ -62,7 +62,7 @@ func init() {
 					})
 				}})
 			}
-			return ss
+			return append(ss, c01SchedSuites(tier)...)
 		},
 	})
 }
